@@ -11,9 +11,9 @@ NAME = "multisim"
 def budget(prop, tier):
     if prop == "C12":
         return {"runs": 600 if tier == "quick" else 20000, "chunk": 10,
-                "wall": 200 if tier == "quick" else 3300, "hang": 900}
+                "wall": 200 if tier == "quick" else 3300, "hang": 400}
     return {"runs": 3000 if tier == "quick" else 150000, "chunk": 1,
-            "wall": 200 if tier == "quick" else 3300, "hang": 900}
+            "wall": 200 if tier == "quick" else 3300, "hang": 400}
 
 
 def extra(prop, tier):
